@@ -36,10 +36,23 @@ class Item(Ext):
         return self.label
 
 
+def lab(v):
+    """label of a content item: opaque items carry one; imports are the real nodes the parser stores (a ComponentRef for
+    `import A.B.C;`, an ImportClause for `import A.*;` and `import S = A.B;`)"""
+    if isinstance(v, Item):
+        return v.label
+    if isinstance(v, VObj) and v.cls.name == "ComponentRef":
+        return "ref:" + str(v.fields.get("name"))
+    if isinstance(v, VObj) and v.cls.name == "ImportClause":
+        comps = v.fields.get("components")
+        return "import-clause:%s:%s" % (v.fields.get("short_name"), [lab(x) for x in (comps.items if isinstance(comps, VList) else [])])
+    return repr(v)
+
+
 def view(c):
     """abstract view of a class object"""
     f = c.fields
-    own = {d: tuple((k, v.label) for k, v in zip(f[d].keys, f[d].vals)) for d in CONTENT_DICTS}
+    own = {d: tuple((k, lab(v)) for k, v in zip(f[d].keys, f[d].vals)) for d in CONTENT_DICTS}
     own.update({l: tuple(x.label for x in f[l].items) for l in CONTENT_LISTS})
     own["type"] = f["type"]
     own["comment"] = f["comment"]
@@ -88,7 +101,19 @@ def mk_class(A, name, typ, content, children):
     c = A.new("Class", name=name, type=typ)
     for d in CONTENT_DICTS:
         for key in content.get(d, []):
-            ops.setitem(A.eng, c.fields[d], key, Item("%s.%s:%s" % (name, d, key)))
+            if d == "imports":
+                # as the parser stores them: "*" -> the clause of the unqualified imports, "S=" -> a renaming clause under S,
+                # any other key -> the reference to the imported class
+                if key == "*":
+                    item = A.new("ImportClause", components=VList([A.ref("Lib_%s" % name)]), unqualified=True)
+                elif key.endswith("="):
+                    key = key[:-1]
+                    item = A.new("ImportClause", components=VList([A.ref("Lib.%s" % key)]), short_name=key)
+                else:
+                    item = A.ref("Lib.%s" % key)
+            else:
+                item = Item("%s.%s:%s" % (name, d, key))
+            ops.setitem(A.eng, c.fields[d], key, item)
     for l in CONTENT_LISTS:
         for key in content.get(l, []):
             c.fields[l].items.append(Item("%s.%s:%s" % (name, l, key)))
@@ -127,11 +152,11 @@ def h_extend_contract(eng):
             return None
         kids = []
         if (side == "self" and a_self) or (side == "other" and a_other):
-            kids.append(mk_class(A, "A" if side == "self" else "A2" if a_self and a_other else "A", "model", {"symbols": ["x"], "equations": ["e"]}, []))
+            kids.append(mk_class(A, "A" if side == "self" else "A2" if a_self and a_other else "A", "model", {"symbols": ["x"], "equations": ["e"], "imports": ["*", "K"]}, []))
         if q_side == side or q_side == "both-placeholder-and-real":
             real_q = (q_side == side) or (side == "other")
             kids.append(mk_class(A, "Q", "package", {"symbols": ["g"]} if real_q else {}, [mk_class(A, "C_" + side, "model", {"symbols": ["z"]}, [])]))
-        content = {"symbols": ["k"], "imports": ["I"], "extends": ["X"]} if kind == "real" else {}
+        content = {"symbols": ["k"], "imports": ["I", "*", "S="], "extends": ["X"]} if kind == "real" else {}
         return mk_class(A, "P", real_type if kind == "real" else "package", content, kids)
     ps, po = package("self", p_self), package("other", p_other)
     other_top = mk_class(A, "Other", "model", {"symbols": ["o"]}, [])
@@ -155,11 +180,11 @@ def h_extend_contract(eng):
 
 
 FILES = {
-    "pkg": lambda A: mk_tree(A, [mk_class(A, "P", "package", {"symbols": ["k"]}, [mk_class(A, "A", "model", {"symbols": ["x"], "equations": ["e1"]}, [])])]),
+    "pkg": lambda A: mk_tree(A, [mk_class(A, "P", "package", {"symbols": ["k"], "imports": ["*", "I"]}, [mk_class(A, "A", "model", {"symbols": ["x"], "equations": ["e1"], "imports": ["K", "*"]}, [])])]),
     "within-P": lambda A: mk_tree(A, [mk_class(A, "P", "package", {}, [mk_class(A, "B", "model", {"symbols": ["y"], "equations": ["e2"]}, [])])]),
     "within-P.Q": lambda A: mk_tree(A, [mk_class(A, "P", "package", {}, [mk_class(A, "Q", "package", {}, [mk_class(A, "C", "model", {"symbols": ["z"]}, [])])])]),
     "class-top": lambda A: mk_tree(A, [mk_class(A, "P", "class", {"symbols": ["w"]}, [mk_class(A, "T", "model", {"symbols": ["t"]}, [])])]),
-    "Q-itself": lambda A: mk_tree(A, [mk_class(A, "P", "package", {}, [mk_class(A, "Q", "package", {"symbols": ["g"], "imports": ["J"]}, [])])]),
+    "Q-itself": lambda A: mk_tree(A, [mk_class(A, "P", "package", {}, [mk_class(A, "Q", "package", {"symbols": ["g"], "imports": ["J", "*", "S="]}, [])])]),
 }
 SPLITS = [("class-top", "within-P", "within-P.Q"), ("pkg", "within-P", "within-P.Q"), ("pkg", "within-P.Q", "Q-itself"), ("within-P", "Q-itself", "within-P.Q"), ("pkg", "within-P", "Q-itself")]
 
